@@ -21,24 +21,48 @@ package reader
 //@   ensures (r == nil) == (old(tr.position) >= len(old(tr.tokens)))
 //@   ensures implies(r != nil, tr.position == old(tr.position) + 1)
 //@   ensures implies(r == nil, tr.position == old(tr.position))
+//@   ensures implies(r != nil, r.Value == tr.tokens[old(tr.position)].Value) @C16
 
 //@ func (*tokenReader).peek(tr) (r)
 //@   requires validReader(tr)
 //@   panics never
 //@   assigns nothing
 //@   ensures (r == nil) == (tr.position >= len(tr.tokens))
+//@   ensures implies(r != nil, r.Value == tr.tokens[tr.position].Value) @C16
+
+
+// ---- C16: incomplete versus malformed input, at token level -----------------------------------
+// class of a reader result: 0 no error; 1..4 the distinguished "expected '<closer>', got EOF"
+// error for ) ] } »; 5 any other error
+//@ spec eofOf(e error, c string) bool = e != nil && is(e, lisperror.LispError) && errorString(thrownOf(e)) == "expected '" + c + "', got EOF"
+//@ spec cls(e error) int = ite(e == nil, 0, ite(eofOf(e, ")"), 1, ite(eofOf(e, "]"), 2, ite(eofOf(e, "}"), 3, ite(eofOf(e, "»"), 4, 5)))))
+//@ spec closerCls(c string) int = ite(c == ")", 1, ite(c == "]", 2, ite(c == "}", 3, ite(c == "»", 4, 5))))
+// the grammar of the statement as the class of reading one form at token p (rfC, position after it
+// rfP) and of reading the rest of a bracketed sequence closed by end from token p (rlC, rlP):
+// running out of tokens inside a bracket is the EOF class of THAT bracket's closer; the error of a
+// nested form is passed on unchanged, so the innermost open bracket names the closer
+//@ spec abstract rfC(toks []Token, p int) int
+//@ spec abstract rfP(toks []Token, p int) int
+//@ spec rec rlC(toks []Token, p int, end string) int = ite(p >= len(toks), closerCls(end), ite(toks[p].Value == end, 0, ite(rfC(toks, p) != 0, rfC(toks, p), rlC(toks, rfP(toks, p), end))))
+//@ spec rec rlP(toks []Token, p int, end string) int = ite(p >= len(toks), p, ite(toks[p].Value == end, p + 1, ite(rfC(toks, p) != 0, p, rlP(toks, rfP(toks, p), end))))
+//@ spec isPrefixTok(v string) bool = v == "'" || v == "`" || v == "~" || v == "~@" || v == "@"
+//@ spec rfStep(toks []Token, p int, c int, q int) bool = ite(p >= len(toks), c == 5, ite(isPrefixTok(toks[p].Value), ite(rfC(toks, p+1) != 0, c == rfC(toks, p+1), c == 0 && q == rfP(toks, p+1)), ite(toks[p].Value == "^", ite(rfC(toks, p+1) != 0, c == rfC(toks, p+1), ite(rfC(toks, rfP(toks, p+1)) != 0, c == rfC(toks, rfP(toks, p+1)), c == 0 && q == rfP(toks, rfP(toks, p+1)))), ite(toks[p].Value == ")" || toks[p].Value == "]" || toks[p].Value == "}", c == 5, ite(toks[p].Value == "(", c == rlC(toks, p+1, ")") && implies(c == 0, q == rlP(toks, p+1, ")")), ite(toks[p].Value == "[", c == rlC(toks, p+1, "]") && implies(c == 0, q == rlP(toks, p+1, "]")), ite(toks[p].Value == "{" || toks[p].Value == "#{", ite(rlC(toks, p+1, "}") != 0, c == rlC(toks, p+1, "}"), (c == 0 && q == rlP(toks, p+1, "}")) || c == 5), ite(toks[p].Value == "«", ite(rlC(toks, p+1, "»") != 0, c == rlC(toks, p+1, "»"), implies(c == 0, q == rlP(toks, p+1, "»"))), (c == 0 && q == p + 1) || c == 5))))))))
 
 // the recursive-descent functions: never panic, leave a valid cursor that only moves
 // forward, and terminate (lexicographic measure: remaining tokens, then a rank).
 //@ func read_form(rdr, placeholderValues, ns) (r, e)
+//@   preserves comp:elem:types_Token, comp:cell:types_Token
 //@   requires validReader(rdr)
 //@   requires ns == nil || validEnvVal(ns)
 //@   panics never
 //@   decreases remaining(rdr), 3
 //@   ensures validReader(rdr) && rdr.tokens == old(rdr.tokens) && rdr.position >= old(rdr.position)
 //@   ensures implies(e == nil, rdr.position > old(rdr.position))
+//@   ensures rfStep(rdr.tokens, old(rdr.position), cls(e), rdr.position) @C16
+//@   ensures cls(e) == rfC(rdr.tokens, old(rdr.position)) && implies(e == nil, rdr.position == rfP(rdr.tokens, old(rdr.position))) @assume
 
 //@ func read_list(rdr, start, end, placeholderValues, ns) (r, e)
+//@   preserves comp:elem:types_Token, comp:cell:types_Token
 //@   requires validReader(rdr)
 //@   requires ns == nil || validEnvVal(ns)
 //@   panics never
@@ -48,43 +72,56 @@ package reader
 //@   ensures validReader(rdr) && rdr.tokens == old(rdr.tokens) && rdr.position >= old(rdr.position)
 //@   ensures implies(e == nil, rdr.position > old(rdr.position))
 //@   ensures implies(e == nil, is(r, List))
+//@   loop 1 invariant (tokenStruct == nil) == (rdr.position >= len(rdr.tokens)) && implies(tokenStruct != nil, tokenStruct.Value == rdr.tokens[rdr.position].Value) && old(rdr.position) < len(rdr.tokens) && rdr.tokens[old(rdr.position)].Value == start @C16
+//@   loop 1 invariant rlC(rdr.tokens, rdr.position, end) == rlC(rdr.tokens, old(rdr.position) + 1, end) && rlP(rdr.tokens, rdr.position, end) == rlP(rdr.tokens, old(rdr.position) + 1, end) @C16
+//@   ensures implies(old(rdr.position) < len(rdr.tokens) && rdr.tokens[old(rdr.position)].Value == start, cls(e) == rlC(rdr.tokens, old(rdr.position) + 1, end) && implies(e == nil, rdr.position == rlP(rdr.tokens, old(rdr.position) + 1, end))) @C16
+//@   ensures implies(!(old(rdr.position) < len(rdr.tokens) && rdr.tokens[old(rdr.position)].Value == start), cls(e) == 5) @C16
 
 //@ func read_vector(rdr, placeholderValues, ns) (r, e)
+//@   preserves comp:elem:types_Token, comp:cell:types_Token
 //@   requires validReader(rdr)
 //@   requires ns == nil || validEnvVal(ns)
 //@   panics never
 //@   decreases remaining(rdr), 2
 //@   ensures validReader(rdr) && rdr.tokens == old(rdr.tokens) && rdr.position >= old(rdr.position)
 //@   ensures implies(e == nil, rdr.position > old(rdr.position))
+//@   ensures implies(old(rdr.position) < len(rdr.tokens) && rdr.tokens[old(rdr.position)].Value == "[", cls(e) == rlC(rdr.tokens, old(rdr.position) + 1, "]") && implies(e == nil, rdr.position == rlP(rdr.tokens, old(rdr.position) + 1, "]"))) @C16
 
 //@ func read_hash_map(rdr, placeholderValues, ns) (r, e)
+//@   preserves comp:elem:types_Token, comp:cell:types_Token
 //@   requires validReader(rdr)
 //@   requires ns == nil || validEnvVal(ns)
 //@   panics never
 //@   decreases remaining(rdr), 2
 //@   ensures validReader(rdr) && rdr.tokens == old(rdr.tokens) && rdr.position >= old(rdr.position)
 //@   ensures implies(e == nil, rdr.position > old(rdr.position))
+//@   ensures implies(old(rdr.position) < len(rdr.tokens) && rdr.tokens[old(rdr.position)].Value == "{", ite(rlC(rdr.tokens, old(rdr.position) + 1, "}") != 0, cls(e) == rlC(rdr.tokens, old(rdr.position) + 1, "}"), (e == nil && rdr.position == rlP(rdr.tokens, old(rdr.position) + 1, "}")) || cls(e) == 5)) @C16
 
 //@ func read_set(rdr, placeholderValues, ns) (r, e)
+//@   preserves comp:elem:types_Token, comp:cell:types_Token
 //@   requires validReader(rdr)
 //@   requires ns == nil || validEnvVal(ns)
 //@   panics never
 //@   decreases remaining(rdr), 2
 //@   ensures validReader(rdr) && rdr.tokens == old(rdr.tokens) && rdr.position >= old(rdr.position)
 //@   ensures implies(e == nil, rdr.position > old(rdr.position))
+//@   ensures implies(old(rdr.position) < len(rdr.tokens) && rdr.tokens[old(rdr.position)].Value == "#{", ite(rlC(rdr.tokens, old(rdr.position) + 1, "}") != 0, cls(e) == rlC(rdr.tokens, old(rdr.position) + 1, "}"), (e == nil && rdr.position == rlP(rdr.tokens, old(rdr.position) + 1, "}")) || cls(e) == 5)) @C16
 
 //@ func read_external(rdr, placeholderValues, ns) (r, e)
+//@   preserves comp:elem:types_Token, comp:cell:types_Token
 //@   requires validReader(rdr)
 //@   requires ns == nil || validEnvVal(ns)
 //@   panics never
 //@   decreases remaining(rdr), 2
 //@   ensures validReader(rdr) && rdr.tokens == old(rdr.tokens) && rdr.position >= old(rdr.position)
 //@   ensures implies(e == nil, rdr.position > old(rdr.position))
+//@   ensures implies(old(rdr.position) < len(rdr.tokens) && rdr.tokens[old(rdr.position)].Value == "«", ite(rlC(rdr.tokens, old(rdr.position) + 1, "»") != 0, cls(e) == rlC(rdr.tokens, old(rdr.position) + 1, "»"), implies(e == nil, rdr.position == rlP(rdr.tokens, old(rdr.position) + 1, "»")))) @C16
 
 //@ func read_placeholder(rdr, placeholderValues, ns) (r, e)
 //@   requires validReader(rdr) && rdr.position < len(rdr.tokens)
 //@   assigns comp:cell:reader_tokenReader
 //@   panics never
+//@   ensures (e == nil && rdr.position == old(rdr.position) + 1) || cls(e) == 5 @C16
 //@   ensures validReader(rdr) && rdr.tokens == old(rdr.tokens) && rdr.position >= old(rdr.position)
 //@   ensures implies(e == nil, rdr.position > old(rdr.position))
 
@@ -92,6 +129,7 @@ package reader
 //@   requires validReader(rdr) && rdr.position < len(rdr.tokens)
 //@   assigns comp:cell:reader_tokenReader
 //@   panics never
+//@   ensures (e == nil && rdr.position == old(rdr.position) + 1) || cls(e) == 5 @C16
 //@   ensures validReader(rdr) && rdr.tokens == old(rdr.tokens) && rdr.position >= old(rdr.position)
 //@   ensures implies(e == nil, rdr.position > old(rdr.position))
 
